@@ -17,6 +17,7 @@ import (
 	"fmt"
 	"hash/fnv"
 	"os"
+	"sort"
 	"strconv"
 	"strings"
 	"sync"
@@ -73,7 +74,7 @@ const (
 const (
 	grace     = 1500 * time.Millisecond // wind-down time granted to goroutines before they count as left behind
 	opTimeout = 3 * time.Second
-	parkWait  = 80 * time.Millisecond // how long a released goroutine is given to reach the gate the model expects
+	parkWait  = 50 * time.Millisecond // how long a released goroutine is given to reach the gate the model expects
 )
 
 // base is what every rig shares.
@@ -174,8 +175,17 @@ func (b *base) trace(comp string, sync bool) *fw.Trace {
 	return t
 }
 
-// runOp runs an operation on a closed component: result class ok | closed | error | panic | hang.
+// runOp runs an operation of the component. Invoked after some Close has returned it is an "operation
+// after close": result class ok | closed | error | panic | hang (Op event). Invoked while closers are
+// still running it is the component's own I/O in flight: a panic there is a Panic event ("inflight:<op>@site").
 func (b *base) runOp(name string, fn func() error) {
+	afterClose := false
+	for _, e := range b.rec.events() {
+		if e["ev"] == "CloseRet" {
+			afterClose = true
+			break
+		}
+	}
 	type result struct{ res, site, what string }
 	done := make(chan result, 1)
 	go func() {
@@ -199,6 +209,10 @@ func (b *base) runOp(name string, fn func() error) {
 	case <-time.After(opTimeout):
 		r = result{res: "hang"}
 	}
+	if r.res == "panic" && !afterClose {
+		b.rec.add(fw.Event{"ev": "Panic", "where": "inflight:" + name + "@" + r.site, "what": r.what})
+		r.res = "error"
+	}
 	b.rec.add(fw.Event{"ev": "Op", "op": name, "res": r.res, "site": r.site, "what": r.what})
 }
 
@@ -215,6 +229,20 @@ func drive(env *fw.Env, b fw.Behaviour) *fw.Trace {
 	defer setHook(nil)
 	seed := env.Seed*100003 + int64(beh.Seed)
 	var t *fw.Trace
+	t0 := time.Now()
+	defer func() {
+		k := beh.Scene
+		if beh.Free {
+			k += ":free"
+		}
+		if t != nil && t.Status != fw.Realised {
+			k += ":" + t.Status
+		}
+		statMu.Lock()
+		statDur[k] += time.Since(t0)
+		statN[k]++
+		statMu.Unlock()
+	}()
 	switch beh.Scene {
 	case "latch":
 		t = driveLatch(beh, seed)
@@ -238,6 +266,12 @@ func drive(env *fw.Env, b fw.Behaviour) *fw.Trace {
 	}
 	return t
 }
+
+var (
+	statMu  sync.Mutex
+	statDur = map[string]time.Duration{}
+	statN   = map[string]int{}
+)
 
 // probeHooks finds out whether the two hook points exist in the tree the driver was built against.
 func probeHooks() {
@@ -377,9 +411,9 @@ func main() {
 		},
 		ExtraBeh: func(env *fw.Env) []json.RawMessage {
 			var out []json.RawMessage
-			nfree := 40
+			nfree := 120
 			if env.Tier == "thorough" {
-				nfree = 600
+				nfree = 1200
 			}
 			for _, c := range latchKinds {
 				for _, op := range opNames(c) {
@@ -401,7 +435,18 @@ func main() {
 			}
 			return out
 		},
-		Drive:    drive,
+		Drive: drive,
+		PostDrive: func(env *fw.Env, traces []*fw.Trace) error {
+			var ks []string
+			for k := range statN {
+				ks = append(ks, k)
+			}
+			sort.Strings(ks)
+			for _, k := range ks {
+				fmt.Printf("[c16]   %-28s n=%-5d %.1fs\n", k, statN[k], statDur[k].Seconds())
+			}
+			return nil
+		},
 		Parallel: 1, // the verifhook handler and the goroutine-leak oracle are process global
 		SelfTest: selfTest,
 		NonTrivial: func(t *fw.Trace) bool {
